@@ -82,6 +82,42 @@ Proof.
   split; apply reach_same_sources; [exact E|intros y; symmetry; apply E].
 Qed.
 
+(* each directory is registered at most once: the visited check precedes every push *)
+Lemma populate_nodup g : forall fuel pending visited v,
+  populate g fuel pending visited = Some v -> NoDup visited -> NoDup v.
+Proof.
+  induction fuel as [|f IH]; intros pending visited v H N; cbn in H; [discriminate|].
+  destruct pending as [|d rest]; [inversion H; subst; exact N|].
+  destruct (nmem d visited) eqn:M; [exact (IH _ _ _ H N)|].
+  apply (IH _ _ _ H). constructor; [apply nmem_false, M|exact N].
+Qed.
+Theorem discover_nodup g srcs v : discover g srcs = Some v -> NoDup v.
+Proof. unfold discover. intros H. exact (populate_nodup g _ _ _ _ H (NoDup_nil _)). Qed.
+
+(* naming more sources only adds directories: what one source sees never depends on the others *)
+Lemma reach_more_sources g s1 s2 x : incl s1 s2 -> reach g s1 x -> reach g s2 x.
+Proof. intros E R. induction R as [s Hin|a b R IH Hb]; [apply reach_src, E, Hin|eapply reach_step; eassumption]. Qed.
+Theorem discover_monotone g s1 s2 v1 v2 : incl s1 s2 ->
+  discover g s1 = Some v1 -> discover g s2 = Some v2 -> incl v1 v2.
+Proof.
+  intros E H1 H2 x Hx. apply (discover_exact g s2 v2 H2). apply (reach_more_sources g s1 s2 x E).
+  apply (discover_exact g s1 v1 H1). exact Hx.
+Qed.
+(* and the closure of a union is the union of the closures *)
+Lemma reach_app g s1 s2 x : reach g (s1 ++ s2) x <-> reach g s1 x \/ reach g s2 x.
+Proof.
+  split.
+  - intros R. induction R as [s Hin|a b R IH Hb].
+    + apply in_app_or in Hin. destruct Hin as [Hin|Hin]; [left|right]; apply reach_src, Hin.
+    + destruct IH as [IH|IH]; [left|right]; eapply reach_step; eassumption.
+  - intros [R|R]; eapply reach_more_sources; try exact R; intros y Hy; apply in_or_app; auto.
+Qed.
+Theorem discover_union g s1 s2 v1 v2 v : discover g s1 = Some v1 -> discover g s2 = Some v2 ->
+  discover g (s1 ++ s2) = Some v -> forall x, In x v <-> In x v1 \/ In x v2.
+Proof.
+  intros H1 H2 H x. rewrite (discover_exact g _ _ H), (discover_exact g _ _ H1), (discover_exact g _ _ H2). apply reach_app.
+Qed.
+
 (* ---- termination: the fuel of discover always suffices, cycles included ---- *)
 Definition wf (g : dgraph) : Prop := forall d x, In x (succs g d) -> x < length g.
 Definition unvisited (n : nat) (visited : list nat) : nat := length (filter (fun d => negb (nmem d visited)) (seq 0 n)).
